@@ -9,7 +9,7 @@
 //!         when the harness advances it.
 //! kind 5: `extract_next_presence_batch` / `presences_message` through the verif wrappers.
 //! kind 6: the real `send_request` on a substream over an in-memory carrier.
-use super::{gen_rblock, get_varint, limbs, payload, put_varint};
+use super::{gen_rblock, limbs, payload, put_varint};
 use crate::util::*;
 use futures::Stream;
 use litep2p::{
@@ -1072,15 +1072,6 @@ fn bulk_cid(base: &Cid, j: u64) -> Option<Cid> {
     Cid::new(base.version(), base.codec(), mh).ok()
 }
 
-/// (version, codec, hash code) of prefix bytes, read leniently (wrapping, no minimality check).
-fn prefix_shape(prefix: &[u8]) -> Option<(u64, u64, u64)> {
-    let b: Vec<u64> = prefix.iter().map(|x| *x as u64).collect();
-    let (v, r) = get_varint(&b)?;
-    let (codec, r) = get_varint(r)?;
-    let (code, _) = get_varint(r)?;
-    Some((v, codec, code))
-}
-
 /// The prefix bytes of a block stored under `cid`, written by the harness.
 fn prefix_of(cid: &Cid) -> Vec<u8> {
     let mut b: Vec<u64> = Vec::new();
@@ -1106,6 +1097,23 @@ fn enc_events(node: &Node, evs: Vec<BitswapEvent>, msg: Option<&InMsg>, out: &mu
                 }
             }
             BitswapEvent::Response { peer, responses } => {
+                // Which payload entry is a delivered block?  The loop goes through the entries in
+                // order and delivers the accepted ones, so the k-th block is the k-th entry that
+                // `block_to_response` (asked here entry by entry, through the hook) accepts.
+                // Matching by content would be ambiguous: two entries of a frame may carry the
+                // same bytes (every empty payload does) under prefixes of the same shape, one
+                // of them dropped.  The judgement of what was delivered is the oracle's.
+                let accepted: Vec<(u64, u64)> = msg
+                    .map(|m| {
+                        m.payload
+                            .iter()
+                            .filter(|(prefix, did, dlen)| {
+                                bs::block_to_response(&peer, prefix.clone(), payload(*did, *dlen)).is_some()
+                            })
+                            .map(|(_, did, dlen)| (*did, *dlen))
+                            .collect()
+                    })
+                    .unwrap_or_default();
                 let mut cursor = 0usize;
                 out.extend([2, node.peer_index(&peer), responses.len() as u64]);
                 for r in responses.iter() {
@@ -1113,25 +1121,10 @@ fn enc_events(node: &Node, evs: Vec<BitswapEvent>, msg: Option<&InMsg>, out: &mu
                         ResponseType::Block { cid, block } => {
                             out.push(0);
                             enc_cid(cid, out);
-                            // which payload entry is this? blocks come out in entry order; an
-                            // entry matches when its data is the block and its prefix (read by
-                            // the harness's own lenient varint reader) names this CID's shape
-                            let mut found = None;
-                            if let Some(m) = msg {
-                                for j in cursor..m.payload.len() {
-                                    let (prefix, did, dlen) = &m.payload[j];
-                                    let shape = prefix_shape(prefix);
-                                    if &payload(*did, *dlen) == block
-                                        && shape == Some((u64::from(cid.version()), cid.codec(), cid.hash().code()))
-                                    {
-                                        found = Some((*did, *dlen));
-                                        cursor = j + 1;
-                                        break;
-                                    }
-                                }
-                            }
+                            let found = accepted.get(cursor).filter(|(did, dlen)| &payload(*did, *dlen) == block);
+                            cursor += 1;
                             match found {
-                                Some((did, dlen)) => out.extend([did, dlen]),
+                                Some((did, dlen)) => out.extend([*did, *dlen]),
                                 None => out.extend([1_000_000, block.len() as u64]),
                             }
                         }
